@@ -3,6 +3,14 @@ verus! {
 pub assume_specification[ String::len ](s: &String) -> (r: usize)
     ensures r == vstd::utf8::encode_utf8(s@).len(), r <= isize::MAX as usize;   // allocations never exceed isize::MAX bytes
 
+// std: `String::truncate(n)` does nothing when n >= len and otherwise PANICS unless n lies on a char boundary (documented).
+pub assume_specification[ String::truncate ](s: &mut String, new_len: usize)
+    requires
+        new_len < vstd::utf8::encode_utf8(old(s)@).len() ==> vstd::utf8::is_char_boundary(vstd::utf8::encode_utf8(old(s)@), new_len as int),   // [string.truncate.requires_a_char_boundary_else_panic]
+    ensures
+        new_len >= vstd::utf8::encode_utf8(old(s)@).len() ==> final(s)@ == old(s)@,
+        vstd::utf8::encode_utf8(final(s)@).len() <= new_len || final(s)@ == old(s)@;
+
 // std: `s[a..]` panics iff a > len or a is not on a char boundary.  vstd leaves index_req of
 // String/str range indexing unspecified; this axiom states the documented panic condition.
 #[verifier::external_body]
